@@ -287,6 +287,13 @@ impl Searcher {
                         line,
                     });
 
+                    // The cancellation token is otherwise only polled every few thousand nodes
+                    // inside of an iteration. Iterations that are cheaper than that (positions
+                    // with very few reachable states) would never see a stop request at all
+                    if token.is_cancelled() {
+                        break;
+                    }
+
                     // The best line in this position will lead to a forced mate
                     if best_eval >= eval::Evaluation::POS_INF {
                         // TODO: If this mate came from a quiessence search line
